@@ -13,6 +13,7 @@ import (
 	"verifh/gen"
 	"verifh/ionx"
 	"verifh/model"
+	"verifh/reftext"
 )
 
 // NavCase is a replayable navigation case: a document, its model, and a decision script.
@@ -405,6 +406,12 @@ func runC08(c *Ctx) {
 			vals = dd[i/2]
 		}
 		rk := ReadCase{CaseSeed: cs, Binary: binary, P: []float64{0.1, 0.3, 0.5}[i%3], Vals: vals}
+		if j := i/2 - len(navDirectedDocs()); j >= 0 && j < len(navLiteralDocs) && !binary {
+			// spellings the printer does not produce on purpose, verbatim
+			if lv, err := reftext.Parse(navLiteralDocs[j], nil); err == nil {
+				rk.Literal, rk.Vals, vals = navLiteralDocs[j], lv, lv
+			}
+		}
 		data, unordered, feats, err := rk.render()
 		if err != nil {
 			return
@@ -455,6 +462,19 @@ func runC08(c *Ctx) {
 				}
 			}
 		} else {
+			// first the program that reads everything (every container entered in order), then random ones
+			ones := make([]int, 6*total+200)
+			for x := range ones {
+				ones[x] = actRead
+			}
+			kf := k
+			kf.Script = ones
+			if verdict, d, _, steps := runNav(&kf, nil); verdict != "" {
+				c.Eval(1)
+				c.Obs("navigation_steps", int64(steps))
+				kf.Script = d.taken
+				report(kf, verdict)
+			}
 			for n := 0; n < 50; n++ {
 				kk := k
 				rnd := rand.New(rand.NewSource(cs*131 + int64(n)))
